@@ -88,6 +88,12 @@ def post(ctx):
                                "exception": r.get("exc"), "message": r.get("msg"), "where": r.get("where")})
                 continue
             accepted += 1
+            lost = set(r.get("defective", [])) & set(r.get("original_variables", []))
+            if lost and (it.get("T") is not None or it["id"].startswith("shape-")):
+                # programs of the class have no non-linear dependency cycle: nothing may be classified defective
+                run.violation(keys | {f"{it['id']}:defective"},
+                              {"clause": "variable of an in-class program classified defective", "program": it["text"],
+                               "defective": sorted(lost)})
             eff = set(r.get("effective", [])) | set(r.get("original_variables", [])) - set(r.get("defective", []))
             for g, go in (r.get("goals") or {}).items():
                 if "exc" in go and go["exc"] != "timeout":
